@@ -753,3 +753,237 @@ Module CompleteExamples.
       try (eexists; vm_compute; reflexivity).
   Qed.
 End CompleteExamples.
+
+(* ============================================================================================== *)
+(* C11: one class with one slot *)
+Section Complete11.
+  Variable g : geom.
+  Variable policy : N -> N -> N -> pol.
+  Hypothesis WF : wf_geom g.
+  Hypothesis LF : lower_facts g.
+  Hypothesis PR : pol_refl_match policy.
+  Hypothesis PT : pol_demote_trans policy.
+  Hypothesis PN : pol_never_invalid policy.
+  Notation TF := (TF g).
+  Notation UIC := (UpperInvC g policy).
+  Notation Inv := (UpperInv g policy).
+
+  Lemma slot_held_reserved x c j s :
+    Inv x -> slot_at (us x) c j = Some s -> s_pres s = true ->
+    exists tr, tree_at (us x) (row_tree g (s_row s)) = Some tr /\ t_res tr = true.
+  Proof.
+    intros HI Hat Hp. apply Inv_UIC in HI.
+    destruct (UIC_slot g policy WF LF _ _ _ _ _ _ HI Hat Hp) as (HT & _).
+    destruct (tree_at_some _ _ HT) as (tr & Htr). exists tr. split; [exact Htr|].
+    pose proof (UIC_tree g policy WF LF _ _ _ _ _ HI Htr) as Hok.
+    apply (tree_okC_nn g policy WF LF) in Hok. destruct Hok as (A & _).
+    assert (Hin : In (c, s) (slots_of g (us x) (row_tree g (s_row s)))).
+    { apply in_slots_of. splits; auto. apply in_all_slots; [eapply UIC_len8; eauto|eauto]. }
+    destruct (slots_of g (us x) (row_tree g (s_row s))); [destruct Hin|].
+    cbn [length] in A. destruct (t_res tr); [reflexivity|lia].
+  Qed.
+
+  (* base-order get_local without sync fails only on an absent or empty slot, leaving the state alone *)
+  Lemma get_local_nosync_base x c l fuel e t u' :
+    Inv x -> idx_ok (us x) c l ->
+    get_local g policy (S fuel) (us x) 0 c l None false = (GErr e t, u') ->
+    u' = us x /\
+    forall s, slot_at (us x) c l = Some s -> s_pres s = true -> s_free s = 0.
+  Proof.
+    intros HI Hidx Hg. cbn [get_local] in Hg.
+    pose proof HI as HC. apply Inv_UIC in HC.
+    destruct (locals_get g (us x) c l (option_map (fun f => f / TF) None) (pow2 0)) as [lr u1] eqn:El.
+    pose proof (locals_get_C g policy WF LF _ _ _ _ _ _ _ _ _ HC Hidx El) as Hl.
+    destruct lr as [row|rv| |s]; [| | |destruct Hl].
+    - exfalso. destruct Hl as (s & Hat & Hp & Hrow & Hn & Htree & Hlt & Hfrm & Hu1 & Hcr).
+      specialize (Hcr (crd (row_tree g row) (pow2 0)) (fun j => eq_refl)).
+      destruct (lget_low g u1 row 0 None) as [r2 u2] eqn:Eg.
+      assert (HT1 : row_tree g row < ntrees (us (mk x u1))) by (cbn [us mk]; subst u1; rewrite ntrees_set_slot; exact Hlt).
+      destruct (attempt_succeeds g policy WF LF [] (mk x u1) _ row r2 u2 Hcr HT1 eq_refl Eg) as (f & ->).
+      destruct (negb (row =? f / 64)); [|discriminate].
+      destruct (locals_set_start g u2 c l (f / 64)) as [[[]|?|?] ?]; discriminate.
+    - destruct Hl as (-> & s & Hat & Hp & -> & Hwhy). cbn [andb] in Hg. inv Hg. split; [reflexivity|].
+      intros s' Hat' _. rewrite Hat in Hat'. inv Hat'.
+      destruct Hwhy as [(t1 & Et1 & _)|Hlt]; [discriminate|]. change (pow2 0) with 1 in Hlt. lia.
+    - destruct Hl as (-> & Hwhy). inv Hg. split; [reflexivity|].
+      intros s Hat Hp. destruct Hwhy as [Hn|(s' & Hat' & Hp')].
+      + unfold slot_at in Hat. rewrite Hn in Hat. discriminate.
+      + rewrite Hat in Hat'. inv Hat'. congruence.
+  Qed.
+
+  (* ... and with the sync retry: only if moreover the counter of the slot's tree is zero *)
+  Lemma get_local_base x c l e t u' :
+    Inv x -> idx_ok (us x) c l -> class_slots (us x) c <> None ->
+    get_local g policy 2 (us x) 0 c l None true = (GErr e t, u') ->
+    u' = us x /\
+    forall s, slot_at (us x) c l = Some s -> s_pres s = true ->
+      s_free s = 0 /\ exists tr, tree_at (us x) (row_tree g (s_row s)) = Some tr /\ t_free tr = 0.
+  Proof.
+    intros HI Hidx Hcls Hg. cbn [get_local] in Hg.
+    pose proof HI as HC. apply Inv_UIC in HC.
+    destruct (locals_get g (us x) c l (option_map (fun f => f / TF) None) (pow2 0)) as [lr u1] eqn:El.
+    pose proof (locals_get_frame g _ _ _ _ _ _ _ El) as Fr1.
+    pose proof (locals_get_C g policy WF LF _ _ _ _ _ _ _ _ _ HC Hidx El) as Hl.
+    destruct lr as [row|rv| |s]; [| | |destruct Hl].
+    - exfalso. destruct Hl as (s & Hat & Hp & Hrow & Hn & Htree & Hlt & Hfrm & Hu1 & Hcr).
+      specialize (Hcr (crd (row_tree g row) (pow2 0)) (fun j => eq_refl)).
+      destruct (lget_low g u1 row 0 None) as [r2 u2] eqn:Eg.
+      assert (HT1 : row_tree g row < ntrees (us (mk x u1))) by (cbn [us mk]; subst u1; rewrite ntrees_set_slot; exact Hlt).
+      destruct (attempt_succeeds g policy WF LF [] (mk x u1) _ row r2 u2 Hcr HT1 eq_refl Eg) as (f & ->).
+      destruct (negb (row =? f / 64)); [|discriminate].
+      destruct (locals_set_start g u2 c l (f / 64)) as [[[]|?|?] ?]; discriminate.
+    - destruct Hl as (-> & s & Hat & Hp & -> & Hwhy).
+      assert (Hs0 : s_free s = 0).
+      { destruct Hwhy as [(t1 & Et1 & _)|Hlt]; [discriminate|]. change (pow2 0) with 1 in Hlt. lia. }
+      destruct (slot_held_reserved x c l s HI Hat Hp) as (tr & Htr & Hres).
+      cbn [slot_resv rv_row rv_free andb] in Hg. rewrite Hs0 in Hg.
+      replace (pow2 0 <? 0) with false in Hg by reflexivity.
+      set (T := row_tree g (s_row s)) in *.
+      pose proof (tree_at_lt _ _ _ Htr) as HT.
+      destruct (trees_sync (us x) T (pow2 0 - 0)) as [rs u2] eqn:Esy.
+      pose proof (trees_sync_frame _ _ _ _ _ Esy) as Fr2.
+      destruct (trees_sync_C g policy WF LF _ _ _ _ _ _ _ HC HT Esy) as [(-> & ->)|Hsy].
+      + inv Hg. split; [reflexivity|]. intros s' Hat' _. rewrite Hat in Hat'. inv Hat'. split; [exact Hs0|].
+        exists tr. split; [exact Htr|].
+        unfold trees_sync in Esy. rewrite Htr in Esy. unfold tree_sync_steal in Esy. rewrite Hres in Esy.
+        cbn [andb] in Esy. destruct (N.leb_spec (pow2 0 - 0) (t_free tr)) as [Hle|Hgt]; [discriminate|].
+        change (pow2 0 - 0) with 1 in Hgt. lia.
+      + exfalso. destruct Hsy as (tr' & Htr' & _ & Hmin & -> & Hu2 & Hcr).
+        assert (tr' = tr) by congruence. subst tr'. rename tr into tr'. change (pow2 0 - 0) with 1 in Hmin.
+        specialize (Hcr (crd T (t_free tr')) (fun j => eq_refl)).
+        destruct (locals_put g u2 c l T (t_free tr')) as [rp u3] eqn:Epu.
+        pose proof (locals_put_frame g _ _ _ _ _ _ _ Epu) as Fr3.
+        assert (Hidx2 : idx_ok (us (mk x u2)) c l) by (cbn [us mk]; eapply frame_idx_ok; eauto).
+        assert (Hc2 : t_free tr' <= crd T (t_free tr') T) by (unfold crd, delta; rewrite N.eqb_refl; lia).
+        assert (Hat2 : slot_at u2 c l = Some s) by (subst u2; exact Hat).
+        destruct (locals_put_C g policy WF LF _ _ _ _ _ _ _ _ _ Hcr Hidx2 Hc2 Epu) as [(-> & Hu3 & Hwhy2)|(-> & Hput)].
+        * cbn [us mk] in Hwhy2. destruct Hwhy2 as [Hn|(s2 & Hat2' & Hbad)].
+          -- apply Hcls. subst u2. exact Hn.
+          -- rewrite Hat2 in Hat2'. inv Hat2'. destruct Hbad as [Hb|Hb]; [congruence|apply Hb; reflexivity].
+        * destruct Hput as (s3 & Hat3 & Hp3 & Hrt3 & Hu3 & Hcr3).
+          cbn [us mk] in Hat3, Hu3. assert (s3 = s) by congruence. subst s3. rename s into s3.
+          assert (Hc3 : forall j, cr0 j + delta j T (t_free tr') = crd T (t_free tr') j)
+            by (intros j; unfold crd, cr0; lia).
+          specialize (Hcr3 cr0 Hc3). apply Inv_UIC in Hcr3.
+          assert (Hidx3 : idx_ok (us (mk x u3)) c l).
+          { cbn [us mk]. eapply frame_idx_ok; [|exact Hidx]. eapply frame_trans; eauto. }
+          destruct (get_local_nosync_base (mk x u3) c l 0 e t u' Hcr3 Hidx3 Hg) as (_ & Hz).
+          cbn [us mk] in Hz.
+          specialize (Hz {| s_pres := true; s_row := s_row s3; s_free := s_free s3 + t_free tr' |}).
+          cbn [s_pres s_free] in Hz. rewrite Hu3 in Hz.
+          rewrite slot_at_set_slot_same in Hz by congruence.
+          specialize (Hz eq_refl eq_refl). lia.
+    - destruct Hl as (-> & Hwhy). inv Hg. split; [reflexivity|].
+      intros s Hat Hp. exfalso. destruct Hwhy as [Hn|(s' & Hat' & Hp')].
+      + unfold slot_at in Hat. rewrite Hn in Hat. discriminate.
+      + rewrite Hat in Hat'. inv Hat'. congruence.
+  Qed.
+
+  Lemma sum_free_zero l : (forall cs, In cs l -> s_free (snd cs) = 0) -> sum_free l = 0.
+  Proof.
+    unfold sum_free. induction l as [|a l IH]; intros H; cbn [fold_right]; [reflexivity|].
+    rewrite (H a (or_introl eq_refl)), IH; [reflexivity|]. intros cs Hcs. apply H. right. exact Hcs.
+  Qed.
+
+  Ltac err_inv H E :=
+    match type of H with
+    | (let (_, _) := ?s in _) = _ => destruct s as [[?|[]|?] ?u1] eqn:E; try discriminate
+    end.
+
+  (* C11: a single class with a single slot, more trees than slots; a base-order request through
+     the slot fails only if no visible frame is free: every tree's free frames are all hidden *)
+  Theorem get_single_slot_complete x c x' :
+    Inv x -> (forall c', class_slots (us x) c' <> None -> c' = c) -> class_locals (us x) c = Some 1 ->
+    1 < ntrees (us x) -> 3 * ntrees (us x) < W64 ->
+    ghost_lift (fun u => llfree_get g policy u None {| r_order := 0; r_class := c; r_local := Some 0 |}) x
+      = (Err EMemory, x') ->
+    forall i, i < ntrees (us x) -> tree_free g (low (us x)) i = nth (nn i) (off x) 0.
+  Proof.
+    intros HI Honly Hcl Hnt Hsz Hg.
+    set (rq := {| r_order := 0; r_class := c; r_local := Some 0 |}) in *.
+    assert (Hcls : class_slots (us x) c <> None).
+    { intros E. unfold class_locals in Hcl. rewrite E in Hcl. discriminate. }
+    assert (Hidx : idx_ok (us x) c 0).
+    { intros l El. unfold class_locals in Hcl. rewrite El in Hcl. cbn in Hcl. inv Hcl. lia. }
+    assert (Hv : valid_local (us x) rq).
+    { intros lc Hlc. cbn [r_local rq] in Hlc. inv Hlc. exact Hidx. }
+    destruct (ghost_lift_get g policy _ _ _ _ _ Hg) as (u' & Hget & _). clear Hg.
+    unfold llfree_get in Hget.
+    destruct (check_cases g (us x) 0 rq) as [Ec|Ec]; rewrite Ec in Hget; [|discriminate].
+    destruct (check_ok g _ _ _ Ec) as (Hk & Hfr & Hal & _).
+    assert (Hok : req_ok g (us x) rq None).
+    { unfold req_ok. splits; auto. intros f1 Hf1. discriminate. }
+    cbv zeta in Hget. cbn [r_class r_order r_local rq] in Hget. rewrite Hcl in Hget.
+    replace ((0 <? 1) && (1 <? ntrees (us x))) with true in Hget
+      by (symmetry; apply andb_true_iff; split; [reflexivity|apply N.ltb_lt; exact Hnt]).
+    destruct (get_local g policy 2 (us x) 0 c 0 None true) as [rl u1] eqn:El.
+    pose proof (get_local_G g policy WF LF x 0%nat c 0 None rl u1 HI Hidx (Nat.le_0_l _)) as Hpost.
+    destruct rl as [f1 c1|e t|s]; try discriminate.
+    assert (Hal0 : frame_al (us x) 0 None) by (intros f1 Hf1; discriminate).
+    specialize (Hpost Hal0 El). cbn [glr_post] in Hpost. destruct Hpost as (_ & Htlt).
+    destruct (get_local_base x c 0 e t u1 HI Hidx Hcls El) as (-> & Hslot).
+    destruct e; try discriminate.
+    err_inv Hget Hsr.
+    match type of Hsr with _ = (_, ?u) => rename u into u2 end.
+    set (start := match t with Some s => s | None => (if 1 =? 0 then 0 else ntrees (us x) / 1) * 0 end) in *.
+    assert (Hstart : start <= ntrees (us x)).
+    { subst start. destruct t as [t0|]; [specialize (Htlt t0 eq_refl); lia|lia]. }
+    assert (Hn0 : ntrees (us x) <> 0) by lia.
+    assert (Hb0 : start + 2 * ntrees (us x) < W64) by lia.
+    assert (Hl1 : 0 < 1) by lia.
+    pose proof (reserve_search_complete g policy WF LF PR PN x c (Some 0) HI Hok 0 1 Hcl Hl1 start u2 Hn0 Hb0 Hsr)
+      as Hng.
+    (* every slot is the slot (c, 0) *)
+    pose proof HI as HC. apply Inv_UIC in HC.
+    pose proof (UIC_len8 g policy WF LF _ _ _ HC) as L8.
+    assert (Hall : forall c' s, In (c', s) (all_slots (us x)) -> slot_at (us x) c 0 = Some s).
+    { intros c' s Hin. apply (in_all_slots _ _ _ L8) in Hin. destruct Hin as (j & Hat).
+      pose proof Hat as Hat0. unfold slot_at in Hat. destruct (class_slots (us x) c') as [l|] eqn:El'; [|discriminate].
+      assert (c' = c) by (apply Honly; congruence). subst c'.
+      unfold class_locals in Hcl. rewrite El' in Hcl. cbn in Hcl. inv Hcl.
+      assert (Hj : (nn j < length l)%nat) by (apply nth_error_Some; congruence).
+      assert (j = 0) by (unfold nn in Hj; lia). subst j. exact Hat0. }
+    intros i Hi. destruct (tree_at_some _ _ Hi) as (tr & Htr).
+    pose proof (UIC_tree g policy WF LF _ _ _ _ _ HC Htr) as Hokt.
+    apply (tree_okC_nn g policy WF LF) in Hokt. destruct Hokt as (A & B & _).
+    cbn [ih_of filter length ih_sum fold_right] in A, B. unfold cr0 in B.
+    assert (Hsum : sum_free (slots_of g (us x) i) = 0).
+    { apply sum_free_zero. intros [c' s] Hin. cbn [snd]. apply in_slots_of in Hin. destruct Hin as (Hin & Hp & _).
+      destruct (Hslot s (Hall _ _ Hin) Hp) as (Hz & _). exact Hz. }
+    assert (Hfree : t_free tr = 0).
+    { destruct (t_res tr) eqn:Hres.
+      - destruct (slots_of g (us x) i) as [|[c' s] rest] eqn:Esl; [cbn in A; lia|].
+        assert (Hin : In (c', s) (slots_of g (us x) i)) by (rewrite Esl; left; reflexivity).
+        apply in_slots_of in Hin. destruct Hin as (Hin & Hp & Hrt).
+        destruct (Hslot s (Hall _ _ Hin) Hp) as (_ & tr' & Htr' & Hz). rewrite Hrt in Htr'. congruence.
+      - destruct (N.eq_dec (t_free tr) 0) as [|Hne]; [assumption|exfalso].
+        apply (Hng i Hi). exists tr. splits; auto. lia. }
+    lia.
+  Qed.
+End Complete11.
+
+Module SingleSlotExamples.
+  Import GetExamples.
+  (* one class, one slot, 3 trees: reserve tree through the slot, allocate the second tree whole, hide the
+     partial third tree, then use up the reservation: the next base-order get fails, and indeed no
+     visible frame is free *)
+  Definition v0 := match llfree_new g 5000 IFreeAll [(0,1)] 0 lower0 [] [slot_none] with
+                   | Ok u => ustate_new u
+                   | _ => x0
+                   end.
+  Definition getv x o l := snd (ghost_lift (fun u => llfree_get g pol u None (rq o 0 l)) x).
+  Definition v1 := getv (getv v0 0 (Some 0)) 11 None.
+  Definition v2 := snd (ghost_change g v1 {| m_id := Some 2; m_class := None; m_free := 0 |}
+                                      {| c_class := None; c_op := Some OpOffline |}).
+  Definition v3 := fold_left (fun x o => getv x o (Some 0)) [10; 9; 8; 7; 6; 5; 4; 3; 2; 1; 0]%nat v2.
+  Example ex_single_slot :
+    upper_invb g pol v3 = true /\ class_locals (us v3) 0 = Some 1 /\ (1 <? ntrees (us v3)) = true /\
+    length (present_slots (us v3)) = 1%nat /\
+    (exists x', ghost_lift (fun u => llfree_get g pol u None (rq 0 0 (Some 0))) v3 = (Err EMemory, x')) /\
+    map (fun i => tree_free g (low (us v3)) i) [0; 1; 2] = off v3 /\ off v3 = [0; 0; 904].
+  Proof.
+    split; [vm_compute; reflexivity|]. split; [vm_compute; reflexivity|]. split; [vm_compute; reflexivity|].
+    split; [vm_compute; reflexivity|]. split; [eexists; vm_compute; reflexivity|].
+    split; vm_compute; reflexivity.
+  Qed.
+End SingleSlotExamples.
